@@ -133,7 +133,7 @@ func bodyC36(c c36Case, x *vkit.Ctx) {
 			for _, p := range node.UserMsgs(rnet.Packets()) {
 				var resp serf.VerifMessageQueryResponse
 				if len(p.Buf) > 1 && p.Buf[0] == serf.VerifMessageQueryResponseType && serf.VerifDecodeMessage(p.Buf[1:], &resp) == nil &&
-					resp.Flags&serf.VerifQueryFlagAck == 0 && resp.ID == ask.ID && p.From == (*r).Tr.Addr() {
+					resp.Flags&serf.VerifQueryFlagAck == 0 && resp.ID == ask.ID && p.From == rname {
 					return resp.Payload, true
 				}
 			}
@@ -207,6 +207,16 @@ func bodyC36(c c36Case, x *vkit.Ctx) {
 			continue
 		}
 		counted[from] = true
+		if r.Kind == 5 {
+			// reference for a genuine reply: what the responder believes, i.e. what it
+			// was told (a responder answers with "the address we believe that node is
+			// at, if any"); not read back from the payload it produced
+			valid++
+			if m.Addr != nil && m.Addr.Equal(ownIP) && m.Port == local.Port {
+				own++
+			}
+			continue
+		}
 		// reference: is it a well-formed conflict reply, and whom does it name?
 		var dec serf.Member
 		if len(payload) < 1 || payload[0] != serf.VerifMessageConflictResponseType || serf.VerifDecodeMessage(payload[1:], &dec) != nil {
